@@ -490,3 +490,72 @@ theorem unmarshal_marshal (c : Cert) (h : V2OK c) (rd : List UInt8) (he : encode
   rw [hto, detailsOf_restore, h.valid]
 
 end Nebula.Lemmas.CertV2RT
+
+namespace Nebula.Lemmas.CertV2RT
+open Nebula.Net Nebula.Cert Nebula.Der Nebula.Cert.V2 Nebula.Lemmas.Der Nebula.Lemmas.DerRT Nebula.Lemmas.DerInt
+  Nebula.Lemmas.CertV1RT
+
+/-- **v2 round trip, handshake form**: `Recombine(Version2, MarshalForHandshakes(c), c.PublicKey(), c.Curve())`. -/
+theorem recombine_marshalForHandshakes (c : Cert) (h : V2OK c) (rd : List UInt8) (he : encodeDetails c = some rd)
+    (hsz : (marshalForHandshakes rd c.signature).length ≤ 65536) :
+    recombine (marshalForHandshakes rd c.signature) c.publicKey c.curve = .ok (c, rd) := by
+  obtain ⟨-, -, -, hpk⟩ := validateV2_facts c c h.valid
+  obtain ⟨body, hrd⟩ := encodeDetails_form c rd he
+  have hcur := h.curve
+  have hsig := h.sig_ne
+  unfold marshalForHandshakes at hsz ⊢
+  have hin := encTLV_length_ge tagSequence (rd ++ encTLV tagCertSignature c.signature)
+  simp only [List.length_append] at hin
+  have hsgl := encTLV_length_ge tagCertSignature c.signature
+  have hrdl : rd.length ≤ 65536 := by omega
+  have hdet := unmarshalDetails_encodeDetails c h rd he hrdl
+  unfold recombine unmarshal
+  obtain ⟨inner, hinner⟩ : ∃ inner, inner = rd ++ encTLV tagCertSignature c.signature := ⟨_, rfl⟩
+  rw [← hinner] at hsz hin ⊢
+  have hz : ((encTLV tagSequence inner).length == 0 ||
+      decide ((encTLV tagSequence inner).length > Gen.cert_MaxCertificateSize)) = false := by
+    simp only [Bool.or_eq_false_iff, beq_eq_false_iff_ne, decide_eq_false_iff_not]
+    refine ⟨by omega, ?_⟩
+    show ¬ _ > 65536
+    omega
+  rw [hz]
+  simp only [Bool.false_eq_true, if_false]
+  have hil : inner.length + 6 < 2 ^ 32 := by
+    have := encTLV_length_ge tagSequence inner; omega
+  rw [← List.append_nil (encTLV tagSequence inner), readASN1_encTLV _ _ _ tag_ok.2.2.2.2.2.2.2.2.2.2.2.2.1 hil]
+  simp only []
+  rw [hinner]
+  have hne : (rd ++ encTLV tagCertSignature c.signature).isEmpty = false := by
+    rw [hrd]; exact encTLV_isEmpty _ _ _
+  rw [hne]
+  simp only [Bool.false_eq_true, if_false]
+  have hbl : body.length + 6 < 2 ^ 32 := by
+    have := encTLV_length_ge tagCertDetails body; rw [← hrd] at this; omega
+  rw [hrd, readASN1Element_encTLV _ _ _ tag_ok.1 hbl, ← hrd]
+  simp only []
+  have hrne : rd.isEmpty = false := by rw [hrd]; simp [encTLV]
+  rw [hrne]
+  simp only [Bool.false_eq_true, if_false]
+  rw [readOptionalByte_absent _ _ _ (by rw [← List.append_nil (encTLV _ _), peek_tlv]; decide)]
+  simp only []
+  have hpkpos : c.publicKey.length > 0 := by
+    cases hx : c.publicKey with
+    | nil => exact absurd hx hpk
+    | cons a l => simp
+  have hpeek : peekTag tagCertPublicKey (encTLV tagCertSignature c.signature) = false := by
+    rw [← List.append_nil (encTLV _ _), peek_tlv]; decide
+  simp only [hpkpos, if_true, hpeek, Bool.false_eq_true, if_false]
+  have hpk0 : (c.publicKey.length == 0) = false := by
+    simp only [beq_eq_false_iff_ne, ne_eq]; omega
+  rw [hpk0]
+  simp only [Bool.false_eq_true, if_false]
+  rw [← List.append_nil (encTLV tagCertSignature c.signature), readASN1_encTLV _ _ _ tag_ok.2.2.2.1 (by omega)]
+  simp only []
+  have hs0 : c.signature.isEmpty = false := by cases hx : c.signature <;> simp_all
+  rw [hs0]
+  simp only [Bool.false_eq_true, if_false, hdet]
+  have hto : (UInt8.ofNat c.curve).toNat = c.curve := by simp only [UInt8.toNat_ofNat']; omega
+  rw [hto, detailsOf_restore, h.valid]
+  simp
+
+end Nebula.Lemmas.CertV2RT
